@@ -211,8 +211,17 @@ def run_hyp_part(ctx: Ctx, part: Part, tier: str) -> None:
             if ctx.out_of_time() and "v" not in box:
                 ctx.notes["skipped_time_budget"] += 1
                 return
+            if "v" in box and time.monotonic() > box["shrink_deadline"] \
+                    and case != box["case"]:
+                # shrinking budget used up: let every candidate other than the current
+                # minimal failing case pass, so Hypothesis finishes with that case
+                ctx.notes["shrink_budget_exhausted"] += 1
+                return
             v = guarded(part.prop, case, ctx, seen)
             if v is not None:
+                if "v" not in box:
+                    box["shrink_deadline"] = time.monotonic() + (
+                        45 if tier == "quick" else 400)
                 box["v"], box["case"] = v, case
                 raise v
 
